@@ -89,7 +89,9 @@ class Arr:
     def T(self):
         if self._ndim == 1:
             return Arr(list(self.data), 1)
-        return Arr([list(r) for r in zip(*self.data)], 2)
+        r = Arr([list(r) for r in zip(*self.data)], 2)
+        r.t_of = self        # numpy: x.T is a view -- stores through it are written back (see Interp.store)
+        return r
 
     def flat(self):
         return [x for r in self.data for x in r] if self._ndim == 2 else list(self.data)
@@ -683,6 +685,16 @@ class Interp:
             return
         if getattr(base, "is_view", False):
             raise self.unsupported("store through a slice view", node)
+        if getattr(base, "t_of", None) is not None:
+            # store through a transposed view: perform it on the transposed copy, then write the result back to the owner
+            owner = base.t_of
+            base.t_of = None
+            try:
+                self.store(base, sl, v, env, node)
+            finally:
+                base.t_of = owner
+            owner.data[:] = [list(r) for r in zip(*base.data)]
+            return
         idx = self.ev_index(sl, env)
         if isinstance(idx, IndexSet):
             vals = self.flat_values(v, len(idx.pairs), node)
@@ -1012,6 +1024,10 @@ class Interp:
             return a + b
         if isinstance(a, str) and op is ast.Mult and isinstance(b, Poly) and b.const_value() is not None:
             return a * int(b.const_value())
+        if isinstance(a, (tuple, list)) and not isinstance(b, (Arr, tuple, list)) and op is ast.Mult and isinstance(b, Poly) and b.const_value() is not None:
+            return a * int(b.const_value())
+        if isinstance(b, (tuple, list)) and not isinstance(a, (Arr, tuple, list)) and op is ast.Mult and isinstance(a, Poly) and a.const_value() is not None:
+            return b * int(a.const_value())
         if isinstance(a, str) and op is ast.Mod:
             import re as _re
             vals = list(b) if isinstance(b, tuple) else [b]
@@ -1161,8 +1177,10 @@ class Interp:
             st = self.intval(self.ev(sl.step, env), sl) if sl.step is not None else None
             return slice(lo, hi, st)
         v = self.ev(sl, env)
-        if isinstance(v, IndexSet):
+        if isinstance(v, (IndexSet, slice)):
             return v
+        if isinstance(v, tuple) and any(isinstance(x, slice) for x in v):
+            return tuple(x if isinstance(x, slice) else self.intval(x, sl) for x in v)
         if isinstance(v, list) and v and all(isinstance(x, Poly) and x.const_value() is not None for x in v):
             return [self.intval(x, sl) for x in v]
         if isinstance(v, Arr) and v.ndim == 1 and all(x.const_value() is not None for x in v.data):
@@ -1852,6 +1870,9 @@ class Interp:
             if len(args) > 1:
                 return args[1]
             raise PathRaise("StopIteration", self.where(n))
+        if name == "slice":
+            iv = [None if a is None else self.intval(a, n) for a in args]
+            return slice(*iv)
         if name == "iter":
             return self.iterate(args[0], n)
         if name == "map":
@@ -2464,7 +2485,7 @@ def _dotp(r, c):
 
 OPNAME = {ast.Lt: "<", ast.LtE: "<=", ast.Gt: ">", ast.GtE: ">=", ast.Eq: "==", ast.NotEq: "!="}
 ARR_METHODS = {"squeeze", "conj", "conjugate", "all", "item", "max", "min", "fill", "tocsr", "tocsc", "tolil", "todense", "toarray", "tocoo", "any", "view", "copy", "dot", "transpose", "flatten", "ravel", "tolist", "astype", "reshape", "sum", "round"}
-BUILTIN_NAMES = {"map", "filter", "sorted", "getattr", "hasattr", "setattr", "next", "iter", "id", "abs", "bool", "open", "str", "repr", "set", "frozenset", "dict", "isinstance", "issubclass", "type", "len", "range", "zip", "enumerate", "reversed", "list", "tuple",
+BUILTIN_NAMES = {"slice", "map", "filter", "sorted", "getattr", "hasattr", "setattr", "next", "iter", "id", "abs", "bool", "open", "str", "repr", "set", "frozenset", "dict", "isinstance", "issubclass", "type", "len", "range", "zip", "enumerate", "reversed", "list", "tuple",
                  "all", "any", "sum", "max", "min", "super", "print", "round", "int", "abs", "NotImplementedError"}
 
 
